@@ -32,7 +32,9 @@ TD64_LO = datetime.timedelta.min // datetime.timedelta(milliseconds=1)
 TD64_HI = (datetime.timedelta.max - datetime.timedelta(days=1)) // datetime.timedelta(milliseconds=1)
 DT_HI_S = 253402300799           # 9999-12-31T23:59:59Z in seconds
 
-UTF8_SNIPPETS = ["", "a", "kafka", "é", "日本語", "😀", "a\u0000b", "ß∂ƒ", "߿ࠀ￿", "\U0010ffff"]
+UTF8_SNIPPETS = ["", "a", "kafka", "é", "日本語", "😀", "a\u0000b", "ß∂ƒ", "߿ࠀ￿", "\U0010ffff",
+                 "\ufeff", "\ufeffbom-first", "bom-last\ufeff", "\ud7ff\ue000", "e\u0301", " lead", "trail ", "\t\n",
+                 "\x7f\x80"]
 STRING_LENGTHS = [0, 1, 2, 126, 127, 128, 129]
 BIG_LENGTHS_STRING = [16383, 16384, 32766, 32767]      # Kafka caps strings at int16 max in both forms
 BIG_LENGTHS = [16382, 16383, 16384, 32767, 32768, 65535, 65536, 70001]
